@@ -1,4 +1,4 @@
-import PprofVerif.Lemmas.CodecSchemaFacts
+import PprofVerif.Lemmas.CodecSchemaFactsDec
 import PprofVerif.Lemmas.CodecTotalPost
 import PprofVerif.Lemmas.LegacyCPUTotal
 import PprofVerif.Lemmas.LegacyCPUValues
@@ -399,10 +399,12 @@ theorem schema_decoders_are_model :
     (∀ (m : FunctionX) (f : Field), applyBy FunctionX.dict m f FunctionX.decTable = FunctionX.apply m f) :=
   Facts.schema_decoders_are_model
 
-/-- The schema regenerated from profile/encode.go is the schema of the model: same message types
-in the same order, same statements (tag, encoder, field, guarded-on fields) in every `encode` method, same
-decoder closure (shape, receiver type, field, nested message type) at every table index. -/
-theorem codec_schema_matches : Gen.CodecSchema.all = expectedSchema := Facts.codec_schema_matches
+/-- The decoder tables regenerated from profile/encode.go are the decoder tables of the model: same
+message types in the same order, same closure (decode function, receiver type, field, nested
+message type, attachment, extra checks) at every table index.  (The encoder side of the schema is
+C01's obligation `codec_schema_matches`; parsing does not depend on it.) -/
+theorem decoder_schema_matches :
+    Gen.CodecSchema.all.map decoderPart = expectedSchema.map decoderPart := Facts.decoder_schema_matches
 
 /-- Every regenerated decoder table lists its entries at their own index (the Go code indexes the
 table by the field number; the model's tables carry the index explicitly). -/
